@@ -149,5 +149,38 @@ def index_of_cases(rng, quick):
     return out
 
 
+# ---------------------------------------------------------------------------------------------- optional class-typed fields
+
+OPT_CLASSES = ("class Wheel {\n  size: int\n  constructor(self, size: int) {\n    self.size = size\n  }\n}\n"
+               "class Car {\n  name: str\n  spare: Wheel?\n  towing: Self?\n  constructor(self, name: str, spare: Wheel?) {\n    self.name = name\n    self.spare = spare\n    self.towing = nil\n  }\n"
+               "  fn tow(self, other: Self) -> Self {\n    self.towing = other\n    return other\n  }\n"
+               "  fn borrow_from(self, other: Self) -> Wheel? {\n    w: Wheel? = nil\n    if w ?= self.spare {\n      print self.name + \" has \" + w.size\n    }\n    w ?= other.spare\n    return w\n  }\n"
+               "}\n"
+               "s1 = Wheel(15)\na = Car(\"a\", s1)\nb = Car(\"b\", nil)\nc = Car(\"c\", Wheel(17))\n")
+
+
+def optional_field_cases(rng, quick):
+    """reading an optional / class-typed field with `?=`, `get`, `or`, `== nil`: the value read is the field of THAT object at
+    that moment -- a nil field after a present one is nil, not the object read before"""
+    out = []
+
+    def add(what, body, exp):
+        out.append({"family": "optional-object-field", "class": "optional-field:value-of-another-object", "src": OPT_CLASSES + body, "exp": exp, "what": what})
+    add("?= from a present then from a nil field of another object",
+        "r1 = a.borrow_from(c)\nprint (get r1).size\nr2 = a.borrow_from(b)\nprint r2 == nil\nr3 = b.borrow_from(b)\nprint r3 == nil\nr4 = b.borrow_from(a)\nprint (get r4) is s1\n",
+        ["a has 15", "17", "a has 15", "true", "true", "true"])
+    add("one variable walked along a chain of optional fields",
+        "a.tow(b).tow(c)\nseen: Car? = nil\nhops = 0\nif seen ?= a.towing {\n  hops = hops + 1\n  print (get seen).name\n}\nif seen ?= b.towing {\n  hops = hops + 1\n  print (get seen).name\n}\n"
+        "if seen ?= c.towing {\n  hops = hops + 1\n}\nprint hops\nprint seen == nil\n",
+        ["b", "c", "2", "true"])
+    add("field set back to nil through an alias",
+        "a.tow(b)\nal = a\nt: Car? = nil\nprint t ?= a.towing\nprint (get t) is b\nal.towing = nil\nprint t ?= a.towing\nprint t == nil\nprint a.towing == nil\nprint ((a.towing) or c) is c\n",
+        ["true", "true", "false", "true", "true", "true"])
+    add("get / or / == nil on the optional fields of two objects",
+        "print (get a.spare).size\nprint b.spare == nil\nprint ((b.spare) or s1) is s1\nprint ((c.spare) or s1) is s1\nw: Wheel? = nil\nprint w ?= c.spare\nprint w ?= b.spare\nprint w == nil\nprint w ?= a.spare\nprint (get w) is s1\n",
+        ["15", "true", "true", "false", "true", "false", "true", "true", "true"])
+    return out
+
+
 def cases(rng, quick):
-    return member_order_cases(rng, quick) + map_key_cases(rng, quick) + is_list_cases(rng, quick) + index_of_cases(rng, quick)
+    return member_order_cases(rng, quick) + map_key_cases(rng, quick) + is_list_cases(rng, quick) + index_of_cases(rng, quick) + optional_field_cases(rng, quick)
